@@ -264,7 +264,9 @@ struct Sweep {
 }
 
 /// (kind, text): 0 = trace id, 1 = span id, 2 = traceparent, 3 = timestamp, 4 = flags
-const SWEEP_BASES: [(u8, &str); 8] = [
+const SWEEP_BASES: [(u8, &str); 10] = [
+    (1, "0000000000000001"),
+    (0, "10000000000000000000000000000000"),
     (0, "4bf92f3577b34da6a3ce929d0e0e4736"),
     (0, "0000000000000000000000000000000A"),
     (1, "00f067aa0ba902b7"),
@@ -380,7 +382,10 @@ fn main() {
             });
             s.manual("level-kind-values", [0u8, 1], |_, cx| {
                 cx.nontrivial(true);
-                check_level_kind_values(cx)
+                check_level_kind_values(cx)?;
+                // the all-zero ids are not ids
+                check_span_id_bytes(b"0000000000000000", cx)?;
+                check_trace_id_bytes(b"00000000000000000000000000000000", cx)
             });
 
             // artifacts of the libFuzzer target `parse_any` are replayed through the same entry
